@@ -1470,7 +1470,17 @@ void XMLScanner::scanXMLDecl(const DeclTypes type)
                 }
             }
             else if (XMLString::startsWith(rawValue, XMLUni::fgVersion1)) {
-                if (type == Decl_XML) {
+                //  VersionNum ::= '1.' [0-9]+ : one or more digits must follow
+                const XMLCh* curDigit = rawValue + 2;
+                bool allDigits = (*curDigit != 0);
+                for (; *curDigit; curDigit++)
+                {
+                    if ((*curDigit < chDigit_0) || (*curDigit > chDigit_9))
+                        allDigits = false;
+                }
+                if (!allDigits)
+                    emitError(XMLErrs::UnsupportedXMLVersion, rawValue);
+                else if (type == Decl_XML) {
                     fXMLVersion = XMLReader::XMLV1_0;
                     fReaderMgr.setXMLVersion(XMLReader::XMLV1_0);
                 }
